@@ -328,6 +328,20 @@ func GenScript(rt *rapid.T, p *Profile) *Script {
 		}
 	}
 	for i := 0; i < n; i++ {
+		if len(p.Fragments) > 0 && rapid.IntRange(0, 39).Draw(rt, "crowd") == 0 {
+			// a crowd of peers on one allocation: permissions for 40-150 distinct hosts, a dozen per request
+			c := rapid.IntRange(0, len(sc.Cfg.Clients)-1).Draw(rt, "crowdClient")
+			total := rapid.SampledFrom([]int{40, 63, 64, 65, 66, 100, 128, 129, 150}).Draw(rt, "crowdSize")
+			for from := 0; from < total; from += 12 {
+				var ps []int
+				for k := from; k < min(from+12, total); k++ {
+					ps = append(ps, FirstCrowdPeer+k)
+				}
+				sc.Steps = append(sc.Steps, Step{Op: "CreatePermission", C: c, P: ps, Life: -1})
+			}
+
+			continue
+		}
 		if len(p.Fragments) > 0 && rapid.IntRange(0, 5).Draw(rt, "frag") == 0 {
 			sc.Steps = append(sc.Steps, genFragment(rt, p, &sc.Cfg)...)
 
